@@ -8,12 +8,14 @@ import glob, json, os, shutil
 
 ROOT = os.path.dirname(os.path.dirname(os.path.abspath(__file__)))
 rows = []
-for d in sorted(glob.glob("/tmp/seed_out/C??_?")):
+for d in sorted(glob.glob("/tmp/seed_out/C??_?")) + sorted(glob.glob("/tmp/seed_out2/C??_?")):
     rp = os.path.join(d, "result.json")
     if not os.path.exists(rp):
         continue
     r = json.load(open(rp))
     sid = os.path.basename(d)
+    if "/seed_out2/" in d:
+        sid = sid[:3] + "_r2" + sid[3:]  # second round of independently written changes
     meta = json.load(open(os.path.join(d, "meta.json"))) if os.path.exists(os.path.join(d, "meta.json")) else {}
     confirmed = bool(r.get("applies") and r.get("demo_fails_with_change") and r.get("demo_passes_without") and r.get("suite_passes"))
     caught = r.get("caught_by", [])
